@@ -211,6 +211,7 @@ func (r *Reader) initFields() error {
 	gname := map[int]string{}
 	var lastRegEnt *TOCEntry
 	var chunkTopIndex int
+	var seenEntry bool // an entry other than a chunk has been seen
 	for i, ent := range r.toc.Entries {
 		ent.Name = cleanEntryName(ent.Name)
 		switch ent.Type {
@@ -224,12 +225,17 @@ func (r *Reader) initFields() error {
 			lastRegEnt = ent
 		}
 		if ent.Type == "chunk" {
+			if !seenEntry {
+				// A chunk continues the file of the preceding entry.
+				return fmt.Errorf("chunk entry must not be the topmost")
+			}
 			ent.Name = lastPath
 			r.chunks[ent.Name] = append(r.chunks[ent.Name], ent)
 			if ent.ChunkSize == 0 && lastRegEnt != nil {
 				ent.ChunkSize = lastRegEnt.Size - ent.ChunkOffset
 			}
 		} else {
+			seenEntry = true
 			lastPath = ent.Name
 
 			if ent.Uname != "" {
